@@ -9,6 +9,8 @@
 import sys, json, pickle, itertools, logging, math
 logging.disable(logging.CRITICAL)
 
+class EmptyAgg(Exception):          # a legal FALSY exception when raised without sub-errors (`if exc:` is not `if exc is not None:`)
+    def __len__(self): return len(self.args)
 class ModLevel(Exception): pass
 class CustomInit(Exception):
     def __init__(self, a, b=2): super().__init__(a, b); self.a = a
@@ -50,7 +52,7 @@ def alphabet():
     classes = {'ValueError': lambda *a: ValueError(*a), 'ModLevel': lambda *a: ModLevel(*a), 'Nested': lambda *a: Outer.Nested(*a), 'Local': lambda *a: local_cls()(*a), 'Dyn': lambda *a: Dyn(*a),
                'CustomInit': lambda *a: CustomInit(*(a[:2] or (1,))), 'KwOnly': lambda *a: KwOnlyInit(code=a[0] if a else 0), 'MyBase': lambda *a: MyBase(*a), 'KeyError': lambda *a: KeyError(*a),
                'FromResponse': lambda *a: FromResponse(type('Resp', (), {'status': a[0] if a else 0})()),
-               'DataErr': lambda *a: DataErr(a[0] if a and isinstance(a[0], int) and not isinstance(a[0], bool) else 7), 'ValEq': lambda *a: ValEq(*a)}
+               'DataErr': lambda *a: DataErr(a[0] if a and isinstance(a[0], int) and not isinstance(a[0], bool) else 7), 'ValEq': lambda *a: ValEq(*a), 'EmptyAgg': lambda *a: EmptyAgg(*a)}
     args = {'none': (), 'str': ('boom',), 'mixed': (1, 'x', None, 2.5, True), 'nested': ([1, {'k': [2]}],), 'bytes': (b'\xff\x00',), 'set': ({1, 2},), 'callable': (len,), 'badrepr': (BadRepr(),),
             'unpicklable': (Unpicklable(),), 'unloadable': (Unloadable(),), 'surrogate': ('\ud800',), 'inf': (float('inf'),), 'nan': (float('nan'),), 'intkey': ({1: 2},), 'tuple': ((1, 2),), 'big': (2 ** 80,)}
     return classes, args
@@ -132,6 +134,11 @@ def graphs(seed):
             specs.append([(c1, a, 1, 2, 'keep'), (c2, 'str', 2, None, False), ('KeyError', 'str', 1, None, False)])        # a 2-cycle reachable over two different paths (cause and un-suppressed context)
             specs.append([(c1, a, 1, 2, 'keep'), (c2, 'str', None, 2, False), ('KeyError', 'str', None, 1, False)])        # the same through context links
             specs.append([(c1, a, 1, 2, False), (c2, 'set', None, 2, False), ('KeyError', 'badrepr', None, None, False)])  # diamond: shared node under cause and context
+    for a in ('str', 'set'):          # falsy exceptions as root, cause and context
+        specs.append([('ValueError', a, 1, None, False), ('EmptyAgg', 'none', None, None, False)])
+        specs.append([('ValueError', a, None, 1, False), ('EmptyAgg', 'none', None, None, False)])
+        specs.append([('EmptyAgg', 'none', 1, None, False), ('ValueError', a, None, None, False)])
+        specs.append([('ValueError', a, 1, 2, 'keep'), ('EmptyAgg', 'none', None, None, False), ('EmptyAgg', 'none', None, None, False)])
     for spec in specs:
         for trip, f in T.items():
             n += 1; pr = []
@@ -140,7 +147,9 @@ def graphs(seed):
             try: back = f(nodes[0])
             except BaseException as ex:
                 pr.append(f"C19: {trip}: storing/loading {spec[0][0]}(args={spec[0][1]}) {'with links ' + str([(s[2], s[3], s[4]) for s in spec]) if len(spec) > 1 or spec[0][2] is not None else ''} failed with {type(ex).__name__}: {str(ex)[:120]}")
-                back = None
+                back = None; pr.append(None)
+            if back is None and pr == []: pr.append(f"C19: {trip}: the error {spec[0][0]}(args={spec[0][1]}) of an is_err result came back as None")
+            pr = [x for x in pr if x is not None]
             if back is not None:
                 check_node(nodes[0], back, trip, 'root', pr, spec[0][1] in JSON_OK)
                 if trip != 'pickle' and isinstance(back, BaseException) and type(back).__name__ != '_UnpickleableExceptionWrapper':
@@ -188,11 +197,15 @@ def gate():
     sys.modules.setdefault('ser_replay_driver', sys.modules[me]); me = 'ser_replay_driver'
     names = [('os', 'system'), ('builtins', 'eval'), ('builtins', 'dict'), ('builtins', 'print'), ('subprocess', 'Popen'), (me, 'trap'), (me, 'TrapClass'), (me, 'trap_instance'), (me, 'Holder.fn'), (me, 'Holder.inst'),
              (me, 'Holder'), ('sys', 'modules'), ('os', 'path'), (me, 'Holder.Exc'), (me, 'ModLevel'), (me, 'MixedError'), (me, 'PickyError'), ('builtins', 'ValueError'), ('builtins', 'KeyboardInterrupt'), (me, 'NoSuchThing'), ('no.such.module', 'Boom'),
-             ('json.tool', 'main'), ('antigravity', 'geohash'), ('this', 's'), (None, 'Whatever'), (me, 'NoSuchOuter.InnerError'), (None, 'Billing.NotFound'), ('builtins', 'ValueError.mro'), ('builtins', 'type')]
+             ('json.tool', 'main'), ('antigravity', 'geohash'), ('this', 's'), (None, 'Whatever'), (me, 'NoSuchOuter.InnerError'), (None, 'Billing.NotFound'), ('builtins', 'ValueError.mro'), ('builtins', 'type'),
+             ('json', 'tool.main'), ('wsgiref', 'simple_server.demo_app')]          # a LOADED package + a dotted type name that starts with a sub-module that is not loaded
+    import json as _json_pkg, wsgiref as _wsgiref_pkg
     fails = []; n = 0
     for mod, typ in names:
         for nesting in ('root', 'cause', 'context'):
             for args in ((), ('echo pwned',), (1, 2)):
+                for m_ in ('json.tool', 'wsgiref.simple_server'):
+                    if sys.modules.pop(m_, None) is not None and hasattr(sys.modules.get(m_.split('.')[0]), m_.split('.')[1]): delattr(sys.modules[m_.split('.')[0]], m_.split('.')[1])
                 n += 1; TRAPPED.clear(); before = set(sys.modules)
                 leaf = {'exc_type': typ, 'exc_message': list(args), 'exc_module': mod, 'exc_cause': None, 'exc_context': None, 'exc_suppress_context': False}
                 payload = leaf if nesting == 'root' else {'exc_type': 'ValueError', 'exc_message': ['outer'], 'exc_module': 'builtins', 'exc_cause': leaf if nesting == 'cause' else None,
@@ -216,7 +229,7 @@ def gate():
                     else:
                         leaf_res = res if nesting == 'root' else (res.__cause__ if nesting == 'cause' else res.__context__)
                         resolves_to_exc = (mod, typ) in ((me, 'Holder.Exc'), (me, 'ModLevel'), (me, 'MixedError'), (me, 'PickyError'), ('builtins', 'ValueError'), ('builtins', 'KeyboardInterrupt'))
-                        unresolvable = mod is None or (mod, typ) in ((me, 'NoSuchThing'), (me, 'NoSuchOuter.InnerError'), ('no.such.module', 'Boom'), ('json.tool', 'main'), ('antigravity', 'geohash'), ('this', 's'))
+                        unresolvable = mod is None or (mod, typ) in ((me, 'NoSuchThing'), (me, 'NoSuchOuter.InnerError'), ('no.such.module', 'Boom'), ('json.tool', 'main'), ('antigravity', 'geohash'), ('this', 's'), ('json', 'tool.main'), ('wsgiref', 'simple_server.demo_app'))
                         if unresolvable and isinstance(leaf_res, BaseException) and type(leaf_res).__name__ != typ: pr.append(f"C20: unresolvable type ({mod}, {typ}) did not yield a synthetic class of that name but {type(leaf_res).__name__}")
                 if pr: fails.append({'key': f"{mod}:{typ}@{nesting}", 'config': {'module': mod, 'type': typ, 'args': list(args), 'level': nesting}, 'failed_clauses': pr[:3]})
     # histories: a class that passed the exception-class check earlier must not vouch for another object later (e.g. a cache keyed on id(): ids are
@@ -240,12 +253,37 @@ def gate():
     if hist_bad: fails.append({'key': 'history:id-reuse', 'config': {'history': 'load an unresolvable type, drop it, then load a payload naming a freshly created non-exception class', 'attempt': hist_bad[0]}, 'failed_clauses': [f"C20: after an unresolvable type had been loaded and dropped, a payload naming a NEW non-exception class got that class instantiated with the stored arguments (attempt {hist_bad[0]}): {hist_bad[1]}"]})
     return fails, n
 
+def histories():
+    from taskiq.result import TaskiqResult
+    fails = []; n = 0
+    # history: an error class is loaded once while its module is not imported yet (a stand-in is right), THEN the module is imported: from now on the class is
+    # importable and a loaded error must be of the original class - and, the other way round, a name that resolved to an exception class earlier says nothing
+    # about what it resolves to now (the module attribute was replaced by something that is no exception class).
+    import types as _types
+    def load(modn, typn, args):
+        return TaskiqResult.model_validate({'is_err': True, 'return_value': None, 'execution_time': 0.0, 'error': {'exc_type': typn, 'exc_message': list(args), 'exc_module': modn, 'exc_cause': None, 'exc_context': None, 'exc_suppress_context': False}}).error
+    n += 1; sys.modules.pop('ser_replay_late_module', None)
+    try:
+        first = load('ser_replay_late_module', 'QuotaError', ['acct', 3])
+        late = _types.ModuleType('ser_replay_late_module'); late.QuotaError = type('QuotaError', (Exception,), {'__module__': 'ser_replay_late_module'}); sys.modules['ser_replay_late_module'] = late
+        second = load('ser_replay_late_module', 'QuotaError', ['acct', 3])
+        if type(second) is not late.QuotaError: fails.append({'key': 'history:late-import', 'config': {'history': ['load error of a class whose module is not imported (stand-in)', 'import the module', 'load the same class again']},
+                                                            'failed_clauses': [f"C19: the class ser_replay_late_module.QuotaError is importable now, but an error of that class loads as {type(second).__module__}.{type(second).__qualname__} (first load, before the import: {type(first).__module__}.{type(first).__qualname__})"]})
+        TRAPPED.clear(); late.QuotaError = type('QuotaError', (), {'__init__': (lambda self, *a: TRAPPED.append(('replaced class instantiated', a)))})
+        try: load('ser_replay_late_module', 'QuotaError', ['echo pwned'])
+        except BaseException: pass
+        if TRAPPED: fails.append({'key': 'history:replaced-attribute', 'config': {'history': ['load an error class', 'replace the module attribute by a non-exception class', 'load again']}, 'failed_clauses': [f"C20: a name that resolved to an exception class earlier now names a non-exception class, and loading instantiated it: {TRAPPED[:1]}"]})
+    finally: sys.modules.pop('ser_replay_late_module', None)
+    return fails, n
+
 def run(sc):
     parts = sc.get('parts') or ['graphs', 'gate']; fails = []; n = 0
     if 'graphs' in parts:
         f, k = graphs(sc.get('seed', 0)); fails += f; n += k
     if 'gate' in parts:
         f, k = gate(); fails += f; n += k
+    if 'histories' in parts or 'gate' in parts or 'graphs' in parts:
+        f, k = histories(); fails += f; n += k
     # group identical clause shapes so that a known finding can be keyed by its specific input
     return {'reproduced': bool(fails), 'runs': n, 'n_failures': len(fails), 'failures': fails[:400], 'bound': 'graphs: depth <= 3 over 12 classes x 16 argument kinds x link shapes; gate: 29 names x 3 nesting levels x 3 arg tuples + id-reuse histories'}
 
